@@ -1265,7 +1265,7 @@ func revertSuccessfulContracts(tx *txn, successful []types.FileContractID) error
 			panic(fmt.Errorf("unexpected contract state transition %q %q -> %q", contractID, state.Status, contracts.ContractStatusActive))
 		}
 
-		if res, err := updateStmt.Exec(encode(contractID)); err != nil {
+		if res, err := updateStmt.Exec(contracts.ContractStatusActive, state.ID); err != nil {
 			return fmt.Errorf("failed to update contract %q: %w", contractID, err)
 		} else if n, err := res.RowsAffected(); err != nil {
 			return fmt.Errorf("failed to get rows affected: %w", err)
@@ -1332,9 +1332,6 @@ func revertFailedContracts(tx *txn, failed []types.FileContractID) error {
 			// panic if the contract is not failed. Proper reverts should have
 			// ensured that this never happens.
 			panic(fmt.Errorf("unexpected contract state transition %q %q -> %q", contractID, state.Status, contracts.ContractStatusFailed))
-		} else if state.Status == contracts.ContractStatusFailed {
-			// skip update, most likely rescanning
-			continue
 		}
 
 		// update the contract's resolution index and status
@@ -1715,7 +1712,7 @@ func revertSuccessfulV2Contracts(tx *txn, status contracts.V2ContractStatus, suc
 		}
 
 		// update the contract's resolution index and status
-		if res, err := updateStmt.Exec(status, state.ID); err != nil {
+		if res, err := updateStmt.Exec(contracts.V2ContractStatusActive, state.ID); err != nil {
 			return fmt.Errorf("failed to update contract %q: %w", contractID, err)
 		} else if n, err := res.RowsAffected(); err != nil {
 			return fmt.Errorf("failed to get rows affected: %w", err)
@@ -1782,9 +1779,6 @@ func revertFailedV2Contracts(tx *txn, failed []types.FileContractID) error {
 			// panic if the contract is not failed. Proper reverts should have
 			//  ensured that this never happens.
 			panic(fmt.Errorf("unexpected contract state transition %q -> %q", state.Status, contracts.V2ContractStatusFailed))
-		} else if state.Status == contracts.V2ContractStatusFailed {
-			// skip update, most likely rescanning
-			continue
 		}
 
 		// update the contract's resolution index and status
